@@ -54,8 +54,8 @@ def plan(tier, seed):
         groups, per = 2, 90
         sind = 300
     else:
-        groups, per = 16, 4000
-        sind = 60000
+        groups, per = 16, 9000
+        sind = 150000
     for g in range(groups):
         base = dict(group=g, first_case=g * per, n=per)
         shards.append(dict(name=f'nrtA{g}', mode='nrt', kind='nrt', hard_timeout=600, **base))
